@@ -569,6 +569,10 @@ impl Callbacks for Cb {
                                 out.push_str(",\n");
                                 let b = tcx.optimized_mir(it);
                                 ex.body(it, &format!("ext::{}", name), "ext", b, &mut out);
+                                for (pi, pb) in tcx.promoted_mir(it).iter_enumerated() {
+                                    out.push_str(",\n");
+                                    ex.body(it, &format!("{}::promoted[{}]", name, pi.as_usize()), "promoted", pb, &mut out);
+                                }
                                 found.push(name);
                             }
                         }
